@@ -22,6 +22,8 @@ SHAPES = [
     ("curie", [[1, 1]], True, Q), ("curie", [[1, 0], [0, 1]], False, Q),
     ("uri", [[0, 1], [0, 1]], False, Q), ("uri", [[1, 1]], True, Q),
     ("uri_pf", [[0, 1], [0, 0]], False, Q), ("uri_pf", [[1, 1]], True, Q),
+    ("uri", [[0, 0], [0, 0]], False, Q, dict(params=dict(built="grow"), shard=5)), ("curie", [[1, 0], [0, 0]], False, Q, dict(params=dict(built="grow"), shard=5)),
+    ("uri", [[0, 1]], False, Q, dict(params=dict(built="used"))),
     ("prefix", [[1, 0]] * 3, False, T, dict(budget=900, shard=6)),
     ("curie", [[1, 1], [1, 1]], True, T, dict(budget=1200, shard=6)),
     ("uri", [[0, 1]] * 3, False, T, dict(budget=1800, shard=8)),
